@@ -53,7 +53,8 @@ def shard(traces, k):
 
 
 def validate(module: str, traces: list, *, workdir: str, shards: int = 16, timeout: int = 3600,
-             cfg_extra: str = "", env: dict | None = None, xmx: str = "3g", dfs: bool = False) -> Verdicts:
+             cfg_extra: str = "", env: dict | None = None, xmx: str = "3g", dfs: bool = False,
+             mode: str = "exists") -> Verdicts:
     v = Verdicts(module=module, n_traces=len(traces), n_events=sum(len(t.get("events", [])) for t in traces))
     if not traces:
         return v
@@ -95,6 +96,8 @@ def validate(module: str, traces: list, *, workdir: str, shards: int = 16, timeo
         raise tlc.MachineryError(f"{module}: no verdict for traces {missing[:10]} (of {len(missing)})")
     # a trace is accepted iff SOME spec behaviour consumes it completely
     # (star traces report every failing event; linear traces stop at the first one)
-    v.rejects = sorted((r for t, d in rej.items() if t not in done for r in d.values()),
+    # mode "forall": the trace spec branches over choices the property quantifies over (measurement
+    # outcomes); every branch must be accepted, so any REJECT counts
+    v.rejects = sorted((r for t, d in rej.items() if (mode == "forall" or t not in done) for r in d.values()),
                        key=lambda r: (r["tid"], r["step"]))
     return v
